@@ -36,6 +36,7 @@ func propC08() *Property {
 			{ID: "C08.R7", Title: "goroutine inventory", Floor: 12, Run: func(c *Ctx) { c08R7(c, get(c.P)) }},
 			{ID: "C08.R8", Title: "pub items are written only while they are being constructed", Floor: 20, Run: c08R8},
 			{ID: "C08.R9", Title: "a background load is delivered to the page it was started for (in-flight flag pairing)", Floor: 8, Run: c08R9},
+			{ID: "C08.R10", Title: "no slot of a bounded channel is held while code that needs another slot of the same channel runs", Floor: 0, Run: c08R10},
 		},
 	}
 }
